@@ -237,7 +237,62 @@ func (vc *VC) mergeHeaps(b *ssa.BasicBlock, preds []*ssa.BasicBlock) *Heap {
 	return out
 }
 
+// a loop latch with many predecessors (the end of an interpreter-style dispatch) is executed once
+// per predecessor instead of once on the merged state: the obligations of each arm then see only
+// that arm's path.
+func (vc *VC) isDupLatch(b *ssa.BasicBlock) bool {
+	if len(b.Succs) != 1 || !b.Succs[0].Dominates(b) || len(b.Preds) < 4 || len(b.Instrs) > 12 {
+		return false
+	}
+	for _, in := range b.Instrs {
+		switch in.(type) {
+		case *ssa.Phi, *ssa.BinOp, *ssa.Jump, *ssa.DebugRef, *ssa.UnOp, *ssa.Convert:
+		default:
+			return false
+		}
+	}
+	return true
+}
+
+func (vc *VC) execDupLatch(b *ssa.BasicBlock) {
+	var edges []string
+	for pi, p := range b.Preds {
+		if _, ok := vc.heapOut[p]; !ok {
+			continue
+		}
+		e := vc.edge[[2]*ssa.BasicBlock{p, b}]
+		edges = append(edges, e)
+		vc.tagBlock = p
+		vc.dupSfx = fmt.Sprintf("@from%d", pi+1)
+		h := vc.heapOut[p].clone()
+		for _, in := range b.Instrs {
+			if phi, ok := in.(*ssa.Phi); ok {
+				t := vc.value(phi.Edges[pi])
+				t.T = phi.Type()
+				vc.vals[phi] = t
+			}
+		}
+		reach := e
+		for _, in := range b.Instrs {
+			if _, ok := in.(*ssa.Phi); ok {
+				continue
+			}
+			if in.Pos().IsValid() {
+				vc.pos(in.Pos())
+			}
+			reach = vc.execInstr(b, in, h, reach)
+		}
+		vc.tagBlock = nil
+		vc.dupSfx = ""
+	}
+	vc.reach[b] = or(edges...)
+}
+
 func (vc *VC) execBlock(b *ssa.BasicBlock, _ *Heap) {
+	if vc.isDupLatch(b) {
+		vc.execDupLatch(b)
+		return
+	}
 	var h *Heap
 	var reach string
 	if b == vc.fn.Blocks[0] {
@@ -329,6 +384,25 @@ func (vc *VC) loopEnv(hdr *ssa.BasicBlock, at *ssa.BasicBlock, cur *Heap, subst 
 			return vc.resolveLocal(name, hdr, vc.hdrHeap[hdr], nil)
 		}
 		return vc.resolveLocal(name, at, cur, subst)
+	}
+	env.atLoop = func(k int) *Env {
+		for hb, ord := range vc.loopHdr {
+			if ord == k {
+				hh, ok := vc.hdrHeap[hb]
+				if !ok {
+					return nil
+				}
+				e2 := vc.entryEnv()
+				e2.cur = hh
+				e2.old = vc.entryHeap
+				hb2 := hb
+				e2.local = func(name string, _ bool) (Term, bool) {
+					return vc.resolveLocal(name, hb2, hh, nil)
+				}
+				return e2
+			}
+		}
+		return nil
 	}
 	return env
 }
@@ -446,7 +520,9 @@ func (vc *VC) backEdge(p, hdr *ssa.BasicBlock, h *Heap, reach string) {
 	}
 	env := vc.loopEnv(hdr, p, h, subst)
 	sfx := ""
-	if k := vc.counter(fmt.Sprintf("backedge.%d", n)); k > 1 {
+	if vc.dupSfx != "" {
+		sfx = vc.dupSfx
+	} else if k := vc.counter(fmt.Sprintf("backedge.%d", n)); k > 1 {
 		sfx = fmt.Sprintf(".%d", k)
 	}
 	for i, cl := range ls.Invariants {
@@ -481,6 +557,9 @@ func (vc *VC) backEdge(p, hdr *ssa.BasicBlock, h *Heap, reach string) {
 		}
 		o := vc.oblige("step", fmt.Sprintf("loop%d.%s%s", n, vc.contract.clauseName(cl, i), sfx), cl.Tags, reach, s, cl.Src)
 		o.Pinned = cl.Pinned
+	}
+	for _, inh := range ls.Inherits {
+		vc.inheritSteps(n, inh, env, reach, sfx)
 	}
 	if ls.Decreases != nil {
 		cur, err := env.evalTerm(ls.Decreases.Expr)
@@ -1110,7 +1189,27 @@ func (vc *VC) pow2() string {
 func (vc *VC) execStore(x *ssa.Store, h *Heap, reach string) {
 	v := vc.value(x.Val)
 	if al, toLocal := x.Addr.(*ssa.Alloc); !toLocal || (al.Heap && !isLocalCell(al)) {
-		vc.storeInv(reach, v, x.Val.Type(), "memory")
+		// element stores into an array this activation allocated are exempt: the array is checked
+		// as a whole when it is stored into an object (sliceObjInv)
+		exempt := false
+		if ia, ok := x.Addr.(*ssa.IndexAddr); ok {
+			switch b := ia.X.(type) {
+			case *ssa.MakeSlice:
+				exempt = true
+			case *ssa.Alloc:
+				_ = b
+				exempt = false
+			default:
+				if _, isSlice := ia.X.Type().Underlying().(*types.Slice); isSlice && freshSlice(ia.X, map[ssa.Value]bool{}) {
+					exempt = true
+				}
+			}
+		}
+		if !exempt {
+			vc.storeHeap = h
+			vc.storeInv(reach, v, x.Val.Type(), "memory")
+			vc.storeHeap = nil
+		}
 	}
 	if a, ok := vc.addrs[x.Addr]; ok {
 		vc.storeAddr(h, a, v)
@@ -1434,8 +1533,8 @@ func (vc *VC) frameGoals(c *Contract, h *Heap) [][2]string {
 	a0 := vc.get(vc.entryHeap, "$alloc")
 	var out [][2]string
 	for _, comp := range sortedKeys(vc.compSortSet()) {
-		if comp == "$alloc" {
-			continue
+		if comp == "$alloc" || strings.HasPrefix(comp, "Gcalls_") {
+			continue // ghost state is outside every frame
 		}
 		cur := vc.get(h, comp)
 		old := vc.get(vc.entryHeap, comp)
@@ -1609,4 +1708,52 @@ func (vc *VC) extAccessor(t types.Type, st *types.Struct, field int) string {
 	s := vc.u.sortOf(t)
 	name := "extfield." + sortKey(s) + "." + st.Field(field).Name()
 	return vc.u.ufun(name, []Sort{s}, vc.u.sortOf(st.Field(field).Type()))
+}
+
+// inheritSteps: the iteration delegates to a callee; each postcondition of the callee, read with
+// old() = the start of the iteration and the callee's error result = nil (the iteration completed),
+// becomes a step obligation.
+func (vc *VC) inheritSteps(n int, inh *Inherit, env *Env, reach, sfx string) {
+	cc := vc.prog.contracts.byKey[inh.Callee]
+	fn := vc.prog.funcs[inh.Callee]
+	if cc == nil || fn == nil {
+		panic(evalError{"loop inherit: no contract/function " + inh.Callee})
+	}
+	senv := *env
+	senv.oldIsPre = true
+	senv.vars = map[string]Term{}
+	for k, v := range env.vars {
+		senv.vars[k] = v
+	}
+	cond, err := senv.evalBool(inh.Cond)
+	if err != nil {
+		panic(evalError{"loop inherit condition: " + err.Error()})
+	}
+	for name, e := range inh.Binds {
+		t, err := senv.evalTerm(e)
+		if err != nil {
+			panic(evalError{"loop inherit binding: " + err.Error()})
+		}
+		senv.vars[name] = t
+	}
+	sig := fn.Signature
+	for i := 0; i < sig.Results().Len(); i++ {
+		rt := sig.Results().At(i).Type()
+		z := vc.u.zero(rt)
+		if i == 0 {
+			senv.vars["result"] = z
+		}
+		if i < len(cc.ResultNames) && cc.ResultNames[i] != "" {
+			senv.vars[cc.ResultNames[i]] = z
+		}
+	}
+	short := inh.Callee[strings.LastIndex(inh.Callee, ".")+1:]
+	for i, cl := range cc.Ensures {
+		s, err := senv.evalGoal(cl.Expr)
+		if err != nil {
+			panic(evalError{fmt.Sprintf("loop inherit %s: %v", cc.clauseName(cl, i), err)})
+		}
+		o := vc.oblige("step", fmt.Sprintf("loop%d.inherit.%s.%s%s", n, short, cc.clauseName(cl, i), sfx), cl.Tags, reach, implies(cond, s), "delegated to "+inh.Callee+": "+cl.Src)
+		o.Pinned = cl.Pinned
+	}
 }
